@@ -263,7 +263,57 @@ Store == { << <<Def("x", I(0)), Def("y", I(1))>>, <<BindN(bk, body)>> >> : bk \i
          { << <<Def("n", I(10))>>, <<Def("run", Lam(<< >>, "", body))>>, <<App(V("run"), << >>), Emit1(V("n"))>>, <<App(V("run"), << >>), Emit1(V("n"))>> >>
            : body \in StoreBodies }
 
+-----------------------------------------------------------------------------
+(* wide: a call with n = 0..12 operands sitting in a LATER operand position of another call, inside a   *)
+(* function body.  Calls with many operands take their own path through the compiler and the native    *)
+(* code generator (operands spilled to the VM stack), while the pending operands of the enclosing call *)
+(* must survive.                                                                                       *)
+WNames == <<"a1", "a2", "a3", "a4", "a5", "a6", "a7", "a8", "a9", "a10", "a11", "a12">>
+WCounts == {0, 1, 2, 5, 7, 8, 9, 10, 12}
+WArgs(n, lead) == [i \in 1..n |-> IF i = 1 /\ lead = "x" THEN V("x") ELSE I(i)]
+WInner(kd, n, lead) == CASE kd = "list"  -> P("list", WArgs(n, lead))
+                         [] kd = "plus"  -> P("+", WArgs(n, lead))
+                         [] kd = "fixed" -> App(V("wf"), WArgs(n, lead))
+                         [] kd = "var"   -> App(V("wv"), WArgs(n, lead))
+WOuter(od, e0, inner) == CASE od = "cons"  -> P("cons", <<e0, inner>>)
+                           [] od = "list3" -> P("list", <<e0, inner, e0>>)
+                           [] od = "user"  -> App(V("id2"), <<e0, inner>>)
+                           [] od = "tail"  -> inner
+Wide == { << Pre,
+             <<Def("wf", Lam(SubSeq(WNames, 1, n), "", P("list", [i \in 1..n |-> V(WNames[i])]))),
+               Def("wv", Lam(<< >>, "r", V("r"))),
+               Def("id2", Lam(<<"p", "q">>, "", P("list", <<V("p"), V("q")>>))),
+               Def("k", Lam(<<"x">>, "", WOuter(od, e0, WInner(kd, n, lead))))>>,
+             <<Emit1(App(V("k"), <<I(1)>>)), Emit1(App(V("k"), <<I(40)>>))>> >>
+          : n \in WCounts, kd \in {"list", "plus", "fixed", "var"}, od \in {"cons", "list3", "user", "tail"},
+            e0 \in {I(7), V("x"), V("y")}, lead \in {"x", "c"} }
+
+-----------------------------------------------------------------------------
+(* applam: a lambda literal (fixed, rest, fixed + rest parameters) applied on the spot, in the contexts *)
+(* in which the compiler turns such an application into a let (or not)                                 *)
+ALams == { [ps |-> << >>, rest |-> "r"], [ps |-> <<"p">>, rest |-> "r"], [ps |-> <<"p">>, rest |-> ""],
+           [ps |-> <<"p", "q">>, rest |-> ""], [ps |-> <<"p", "q">>, rest |-> "r"] }
+ABody(l) == P("list", [i \in 1..Len(l.ps) |-> V(l.ps[i])] \o (IF l.rest = "" THEN << >> ELSE <<V(l.rest)>>))
+AArgSets == { << >>, <<P("list", <<I(1), I(2), I(3)>>)>>, <<V("x")>>, <<I(1), V("a")>>, <<I(1), I(2), P("list", <<V("a")>>)>> }
+AOk(l, as) == IF l.rest = "" THEN Len(as) = Len(l.ps) ELSE Len(as) >= Len(l.ps)
+ACtx(cx, e) == CASE cx = "plain"   -> e
+                 [] cx = "let1"    -> Let(<< <<"c", I(5)>> >>, e)
+                 [] cx = "let2"    -> Let(<< <<"c", I(5)>>, <<"d", I(6)>> >>, e)
+                 [] cx = "letstar" -> LetStar(<< <<"c", I(5)>>, <<"d", V("c")>> >>, e)
+                 [] cx = "nested"  -> Let(<< <<"c", I(5)>> >>, Let(<< <<"d", I(6)>> >>, e))
+                 [] cx = "begin"   -> Begin(<<Emit1(V("a")), e>>)
+                 [] cx = "arg"     -> P("cons", <<I(0), e>>)
+                 [] cx = "usesc"   -> Let(<< <<"c", I(5)>>, <<"d", I(6)>> >>, P("cons", <<V("d"), e>>))
+ACtxs == {"plain", "let1", "let2", "letstar", "nested", "begin", "arg", "usesc"}
+AppLam == UNION { { << Pre,
+                       <<Def("k", Lam(<<"a">>, "", ACtx(cx, App(Lam(l.ps, l.rest, ABody(l)), as))))>>,
+                       <<Emit1(App(V("k"), <<I(9)>>)), Emit1(App(V("k"), <<I(10)>>))>> >>
+                    : as \in {a \in AArgSets : AOk(l, a)}, cx \in ACtxs }
+                  : l \in ALams }
+
 Programs == CASE FAMILY = "calls" -> Calls
+              [] FAMILY = "wide" -> Wide
+              [] FAMILY = "applam" -> AppLam
               [] FAMILY = "store" -> Store
               [] FAMILY = "delim" -> Delim
               [] FAMILY = "tail" -> TailFam
